@@ -52,6 +52,9 @@ pub enum HStep {
     ObserveTwin { obs: usize, split: usize },
     /// the observed call with a *clone* of the shared issuer certificate in the issuer's place
     ObserveViaClone(usize),
+    /// the observed Issue call with the subject key given as a *second object* for the same key
+    /// (re-loaded), so that subject and signing key are never the same object
+    ObserveReloadedSubject(usize),
     Noise(Noise),
 }
 
@@ -123,6 +126,17 @@ impl Engine for PurityHist {
         let (slots, setup, mut rest) = gen_world_and_ops(&mut r, crypto, n_obs);
         let observed: Vec<Op> = rest.drain(..n_obs.min(rest.len())).collect();
         let noise_ops = rest;
+        let mut observed = observed;
+        for op in observed.iter_mut() {
+            // re-certifying the issuer's own key under new parameters: subject key == signing key
+            if let Op::Issue { issuer, subject, .. } = op {
+                if r.chance(1, 3) {
+                    if let Some(Op::SelfSign { key, .. }) = setup.get(*issuer) {
+                        *subject = *key;
+                    }
+                }
+            }
+        }
         let n_issuers = setup.len();
         let n_keys = slots.len();
         let len = if tier == Tier::Thorough { r.range(10, 40) } else { r.range(8, 24) } as usize;
@@ -134,6 +148,9 @@ impl Engine for PurityHist {
             }
             if issuer_of(op).is_some() && r.chance(1, 2) {
                 history.push(HStep::ObserveViaClone(i));
+            }
+            if matches!(op, Op::Issue { .. }) && r.chance(1, 2) {
+                history.push(HStep::ObserveReloadedSubject(i));
             }
             if let Op::SelfSign { recipe, .. } | Op::Issue { recipe, .. } | Op::Csr { recipe, .. } = op {
                 if r.chance(2, 3) {
@@ -250,6 +267,26 @@ impl Engine for PurityHist {
                                 o.violate(&c, format!("step {step} observe[{i}] {}: {d}", op.kind()));
                                 break;
                             }
+                        }
+                    }
+                }
+                HStep::ObserveReloadedSubject(i) => {
+                    let Some(op) = t.observed.get(*i) else { continue };
+                    let Op::Issue { subject, .. } = op else { continue };
+                    let Some(kp2) = w.second_key_object(*subject) else { continue };
+                    let Some(r) = w.exec_issue_with_subject(op, &kp2) else { continue };
+                    let now = Observed::of(&w, op, &r);
+                    o.count("observations_with_reloaded_subject_key", 1);
+                    o.ev(format!("{step} reloaded-subject[{i}] {}", now.tag()));
+                    let want = match (&reference[*i], pristine.get(*i)) {
+                        (Some(f), _) => Some(f.clone()),
+                        (None, Some(Some(p))) => Some(p.clone()),
+                        _ => None,
+                    };
+                    if let Some(want) = want {
+                        if let Err((_, d)) = want.same_as(&now) {
+                            o.violate("c15-key-object-identity-matters", format!("step {step} observe[{i}] issue with the subject key given as a second object for the same key: {d}"));
+                            break;
                         }
                     }
                 }
@@ -586,6 +623,7 @@ fn hstep_tag(h: &HStep) -> String {
         HStep::Observe(i) => format!("observe[{i}]"),
         HStep::ObserveTwin { obs, split } => format!("twin[{obs}] split={split}"),
         HStep::ObserveViaClone(i) => format!("via-clone[{i}]"),
+        HStep::ObserveReloadedSubject(i) => format!("reloaded-subject[{i}]"),
         HStep::Noise(n) => format!("noise {}", noise_kind(n)),
     }
 }
